@@ -37,3 +37,25 @@ package id
 // would let two concurrent draws obtain the same value).
 //@ type fallbackGenerator
 //@   field counter atomic rmw
+
+// The sno-backed generator.  Distinctness of sno identifiers is the library's (assumed, see /verif/contracts/deps/sno.spec);
+// what is proved here is that the library is used the way that assumption needs: a generator that is not restored
+// from a snapshot draws its own partition, and every identifier comes from the time-ordered sequence.
+//@ func (*Sno).RestoreIdGenerator
+//@   prop C20
+//@   modifies nothing
+//@   ensures [a-generator-not-restored-from-a-snapshot-draws-its-own-partition]
+//@     err == nil && len(bytes) == 0 ==> is(result, *SnoGenerator) && result.(*SnoGenerator).Generator.ownPartition
+//@   ensures err == nil ==> is(result, *SnoGenerator) && result.(*SnoGenerator).Generator != nil
+
+//@ func (*Sno).NewIdGenerator
+//@   prop C20
+//@   modifies nothing
+//@   ensures [a-new-generator-draws-its-own-partition] err == nil ==> is(result, *SnoGenerator) && result.(*SnoGenerator).Generator.ownPartition
+
+//@ func (*SnoGenerator).New
+//@   prop C20
+//@   requires g.Generator != nil
+//@   modifies nothing
+//@   ensures [every-identifier-comes-from-the-time-ordered-sequence]
+//@     evlen == old(evlen) + 1 && isCall(ev(old(evlen))) && evch(ev(old(evlen))) == code("sno|(*Generator).New") && evval(ev(old(evlen))) == iface(g.Generator)
